@@ -29,6 +29,13 @@ CLIENTS = [
     "from lib import *\nprint(helper(3))\n", "import lib\nobj = lib.make()\nprint(obj.Meth('x'), obj.myVal)\n", "from lib import Greeter\nprint(Greeter.build().helper())\n",
     "import lib\nprint(lib.doThing(1), lib.do_thing(2), lib.dumps([1]), lib.tail)\n", "import lib\nprint(lib.area_tile(2, 3), lib.areaTile(3, 2), lib.bump())\n",
     "from lib import wrapper, unusedClass, anotherVar\nprint(wrapper(2), unusedClass().methodTwo(), anotherVar)\n", "import lib\nprint(lib.a, lib.b, lib.rest, lib.TOTAL)\n",
+    # names the client only writes, deletes or updates through the module
+    "import lib\nlib.maxVal = 99\nlib.sep += '+'\ndel lib.unusedHelper\nprint(lib.maxVal, lib.sep, hasattr(lib, 'unusedHelper'))\n",
+    "import lib\nlib.anotherVar = 1\nlib.SOME_CONST += 2\nfor lib.counterLike in range(2):\n    pass\nprint(lib.SOME_CONST, lib.counterLike)\n",
+    "import lib\nprint(len(lib.PathInfo('a/b\\\\c')))\n",
+    "from lib import Settings\nSettings.level = 9\nprint(Settings().dump(), Settings().load('p'))\n",
+    "import lib\nr = lib.Release()\nprint(r.rest, r.low, r.high, r.span(), lib.make())\n",
+    "import lib\nprint(lib.Color.RED, lib.Color.GREEN, lib.Color.blueish, lib.Point.__slots__, lib.ORIGIN)\n",
 ]
 
 
@@ -132,11 +139,11 @@ def task_preserved(args):
     if st != "ok":
         return {"status": st}
     try:
-        after = pc.surface(out)
+        after = pc.surface(out, deep=True)
         defined = {n.split(".")[-1] for n in after} | after
     except SyntaxError:
         return {"status": "invalid"}
-    before = {n.split(".")[-1] for n in pc.surface(lib)} | pc.surface(lib)
+    before = {n.split(".")[-1] for n in pc.surface(lib, deep=True)} | pc.surface(lib, deep=True)
     return {"status": "ok", "missing": sorted(n for n in pres if n in before and n not in defined), "out": out}
 
 
@@ -146,7 +153,7 @@ def preserved_oracle(ctx):
     base = sweep.baseline("C08")
     cases = []
     for lib in pc.LIB_TEMPLATES:
-        surf = sorted({n.split(".")[-1] for n in pc.surface(lib)})
+        surf = sorted({n.split(".")[-1] for n in pc.surface(lib, deep=True)})
         cases.append((lib, surf))
         for _ in range(ctx.n(2, 8)):
             cases.append((lib, r.sample(surf, r.randint(1, len(surf)))))
@@ -173,7 +180,7 @@ def preserved_oracle(ctx):
 
 def cli_oracle(ctx):
     s = Suite("cli-preserve", kind="oracle")
-    pairs = [(0, 0), (0, 1), (0, 2), (1, 4), (1, 5), (2, 6), (4, 7), (5, 8), (3, 9)]
+    pairs = [(0, 0), (0, 1), (0, 2), (1, 4), (1, 5), (2, 6), (4, 7), (5, 8), (3, 9), (0, 10), (5, 11), (8, 12), (7, 13), (6, 14), (11, 15)]
     for li, ci in pairs:
         d = Path(tempfile.mkdtemp(prefix="c08c_"))
         try:
@@ -192,7 +199,7 @@ def cli_oracle(ctx):
                                         "what": "after `pyrefact lib.py --preserve client.py` the client no longer behaves the same"})
         finally:
             shutil.rmtree(d, ignore_errors=True)
-    s.note = "9 (library, client) pairs in a temp dir: client output before vs after the CLI run `python -m pyrefact lib.py --preserve client.py`"
+    s.note = "15 (library, client) pairs in a temp dir: client output before vs after the CLI run `python -m pyrefact lib.py --preserve client.py`"
     return s
 
 
@@ -201,7 +208,54 @@ def suites(ctx):
     return [usednames_suite(ctx), filepreserve_suite(ctx), preserved_oracle(ctx), cli_oracle(ctx)]
 
 
+def _members(src):
+    """member name -> list of (class name, is static method)"""
+    out = {}
+    for n in ast.walk(ast.parse(src)):
+        if isinstance(n, ast.ClassDef):
+            for f in n.body:
+                if isinstance(f, (ast.FunctionDef, ast.AsyncFunctionDef)):
+                    static = any(isinstance(dec, ast.Name) and dec.id == "staticmethod" for dec in f.decorator_list)
+                    out.setdefault(f.name, []).append((n.name, static))
+                if isinstance(f, (ast.Assign, ast.AnnAssign, ast.AugAssign)):
+                    for t in (f.targets if isinstance(f, ast.Assign) else [f.target]):
+                        for x in ast.walk(t):
+                            if isinstance(x, ast.Name):
+                                out.setdefault(x.id, []).append((n.name, False))
+    return out
+
+
+def root_cause(d):
+    """the recorded root cause that explains every missing preserved name of a preserved-survive disagreement, or None:
+    'member-of-unpreserved-class' (the name is a member, its class is not in the preserve set and was deleted or renamed) /
+    'preserved-static-method-moved' (a static method named in the preserve set by its bare name was moved to module level)"""
+    try:
+        members = _members(d["src"])
+        top_after = {n.name for n in ast.parse(d["out"]).body if isinstance(n, (ast.FunctionDef, ast.AsyncFunctionDef))}
+        top_before = {x.split(".")[0] for x in pc.surface(d["src"]) if "." not in x}
+    except SyntaxError:
+        return None
+    pres = set(d.get("preserve", []))
+    kinds = set()
+    for m in d.get("missing", []):
+        owners = members.get(m, [])
+        if not owners or m in top_before:
+            return None
+        if any(static for (c, static) in owners):
+            kinds.add("preserved-static-method-moved")
+        elif all(c not in pres for (c, _s) in owners):
+            kinds.add("member-of-unpreserved-class")
+        else:
+            return None
+    return kinds
+
+
 def match_known(d, known):
+    if "preserve" in d and "out" in d and "client" not in d:
+        kinds = root_cause(d)
+        ids = {k.get("id"): k for k in known if k["kind"] == "finding"}
+        if kinds and all(kd in ids for kd in kinds):
+            return ids[sorted(kinds)[0]]
     for k in known:
         w = k.get("witness", {}) if k["kind"] == "finding" else {}
         if w and "client" in w and w.get("sha") == d.get("sha") and w.get("client") == d.get("client"):
